@@ -19,8 +19,8 @@ BUGS = (("MC_U1bugwit.cfg", "BugNoWitness"), ("MC_U1bugseen.cfg", "BugSeenCache"
 def run_ext(ctx):
     q = ctx.quick()
     jvm_workers = 8 if q else None
-    # 1. exhaustive: Impl => Abstract (U3, the large one, only in the thorough tier)
-    for u in (UNIVERSES[:2] if q else UNIVERSES):
+    # 1. exhaustive: Impl => Abstract (quick: U1 and U2 up to height 2; thorough: U1, U2, U3 in full)
+    for u in (("U1", "U2q") if q else UNIVERSES):
         ctx.tlc_mc("extpool", "MCExtPool.tla", "MC_%s.cfg" % u, timeout=1500, workers=jvm_workers, coverage=not q, must_cover=False)
     # model-level non-vacuity: each named deviation must be caught by the abstract predicates
     for cfg, name in BUGS:
